@@ -1,0 +1,10 @@
+//go:build !verif
+
+package cdi
+
+// verifPoint and verifEvent are instrumentation points which are only active
+// when building with the "verif" build tag. Without it they are no-ops.
+
+func verifPoint(string) {}
+
+func verifEvent(string, string, bool) {}
